@@ -367,3 +367,290 @@ def generate_sources(es: Optional[list[Entry]] = None) -> tuple[str, str, dict]:
             ",\n  ".join(f"({_lean_str(n)}, t_{n})" for n in tnames) + "]\n\nend J2O.Gen.C01\n")
     info["__models__"] = models
     return bits, main, info
+
+
+# ======================================================================================= round 2
+# Tensor-level entries as dataflow graphs (lean/J2O/Model/C01Tensor.lean): the whole exported graph
+# is translated node by node (true translation); operators / attribute values / constants outside
+# the vocabulary become `GOp.unknown`, so the theorem about the entry fails closed.
+
+
+@dataclass
+class GEntry:
+    name: str
+    jax: str                        # semantic key (+ static parameters) of jaxSemT
+    fn: Callable
+    in_dts: list
+    shapes: list                    # static shapes the program is exported with
+    gens: list                      # per input: ("vals", n) | ("idx", n, extent) | ("bools", n) | ("start", extent)
+    kinds: Optional[Callable] = None    # inputs -> kind of a mismatch (key of known findings)
+    generic: tuple = ()             # other extents for which the recipe must be the SAME term
+    ideal_ok: Optional[Callable] = None  # inputs -> inside the no-overflow domain of the ℤ statement?
+    kind: str = "graph"
+
+
+def gentries() -> list[GEntry]:
+    import jax.numpy as jnp
+    from jax import lax
+    i32, f32, b = np.int32, np.float32, np.bool_
+    N, K = VEC, 4
+    G = GEntry
+    v1 = [("vals", N)]
+
+    def oob(ext):
+        return lambda ins: "index_out_of_bounds" if any(int(i) < -ext or int(i) >= ext for i in ins[1]) else "other"
+
+    def dsk(ext, size):
+        def k(ins):
+            i = int(ins[1][0])
+            j = i + ext if i < 0 else i
+            return "start_needs_clamping" if (j < 0 or j > ext - size) else "other"
+        return k
+    def fits(extra):
+        return lambda ins: sum(abs(int(v)) for v in ins[0]) + extra < 2 ** 31 if extra == 0 else \
+            max([abs(int(v)) for v in ins[0]] + [0]) + extra < 2 ** 31
+    return [
+        G("rev_i32", "rev", lambda x: lax.rev(x, (0,)), [i32], [(N,)], v1, generic=(1, 3)),
+        G("flip_i32", "rev", lambda x: jnp.flip(x), [i32], [(N,)], v1, generic=(1, 3)),
+        G("roll_p2_i32", "roll 2", lambda x: jnp.roll(x, 2), [i32], [(N,)], v1),
+        G("roll_m1_i32", "roll -1", lambda x: jnp.roll(x, -1), [i32], [(N,)], v1),
+        G("pad_pos_i32", "pad 2 1 7", lambda x: lax.pad(x, jnp.int32(7), [(2, 1, 0)]), [i32], [(N,)], v1,
+          generic=(0, 1, 3)),
+        G("pad_neglo_i32", "pad -2 1 7", lambda x: lax.pad(x, jnp.int32(7), [(-2, 1, 0)]), [i32], [(N,)], v1,
+          generic=(2, 3)),
+        G("pad_neghi_i32", "pad 1 -3 7", lambda x: lax.pad(x, jnp.int32(7), [(1, -3, 0)]), [i32], [(N,)], v1,
+          generic=(3, 4)),
+        G("iota_i32", "addiota", lambda x: x + lax.iota(jnp.int32, N), [i32], [(N,)], v1, ideal_ok=fits(8)),
+        G("arange_i32", "addarange 2 14 2", lambda x: x + jnp.arange(2, 14, 2, dtype=jnp.int32), [i32], [(N,)], v1,
+          ideal_ok=fits(16)),
+        G("reduce_max_i32", "max", lambda x: jnp.max(x), [i32], [(N,)], v1, generic=(1, 3)),
+        G("reduce_min_i32", "min", lambda x: jnp.min(x), [i32], [(N,)], v1, generic=(1, 3)),
+        G("reduce_sum_i32", "sum", lambda x: jnp.sum(x), [i32], [(N,)], v1, generic=(0, 1, 3), ideal_ok=fits(0)),
+        G("reduce_prod_i32", "prod", lambda x: jnp.prod(x), [i32], [(N,)], [("small", N)], generic=(0, 1, 3)),
+        G("reduce_all_bool", "all", lambda x: jnp.all(x), [b], [(N,)], [("bools", N)], generic=(0, 1, 3)),
+        G("reduce_any_bool", "any", lambda x: jnp.any(x), [b], [(N,)], [("bools", N)], generic=(0, 1, 3)),
+        G("cummax_f32", "cummax 0", lambda x: lax.cummax(x, axis=0), [f32], [(N,)], v1),
+        G("cummax_rev_f32", "cummax 1", lambda x: lax.cummax(x, axis=0, reverse=True), [f32], [(N,)], v1),
+        G("cummin_f32", "cummin 0", lambda x: lax.cummin(x, axis=0), [f32], [(N,)], v1),
+        G("cummax_i32", "cummax 0", lambda x: lax.cummax(x, axis=0), [i32], [(N,)], v1),
+        G("cumprod_i32", "cumprod 0", lambda x: lax.cumprod(x, axis=0), [i32], [(N,)], [("small", N)]),
+        G("dynamic_slice_3", "dslice 3", lambda x, i: lax.dynamic_slice(x, (i[0],), (3,)), [i32, i32], [(N,), (1,)],
+          [("vals", N), ("start", N)], kinds=dsk(N, 3)),
+        G("take_clip_i32", "takeclip", lambda x, i: jnp.take(x, i, mode="clip"), [i32, i32], [(N,), (K,)],
+          [("vals", N), ("idx", K, N)]),
+        G("take_wrap_i32", "takewrap", lambda x, i: jnp.take(x, i, mode="wrap"), [i32, i32], [(N,), (K,)],
+          [("vals", N), ("idx", K, N)]),
+        G("index_i32", "index", lambda x, i: x[i], [i32, i32], [(N,), (K,)], [("vals", N), ("idx", K, N)],
+          kinds=oob(N)),
+        G("sort_i32", "sort", lambda x: lax.sort(x), [i32], [(N,)], [("ties", N)]),
+        G("argsort_i32", "argsort", lambda x: jnp.argsort(x), [i32], [(N,)], [("ties", N)]),
+        G("top_k3_i32", "topk 3", lambda x: lax.top_k(x, 3), [i32], [(N,)], [("ties", N)]),
+    ]
+
+
+def gexport(e: GEntry, shapes: Optional[list] = None):
+    import jax
+    from jax2onnx import to_onnx
+    specs = [jax.ShapeDtypeStruct(tuple(s), dt) for s, dt in zip(shapes or e.shapes, e.in_dts)]
+    return to_onnx(e.fn, specs, model_name=e.name)
+
+
+_G_SIMPLE = {"Identity": ".identity", "Neg": ".neg", "Not": ".not", "Where": ".where_", "Shape": ".shape",
+             "Squeeze": ".squeeze", "Unsqueeze": ".unsqueeze", "Reshape": ".reshape", "Expand": ".expand",
+             "Slice": ".slice", "Pad": ".pad", "Range": ".range"}
+_G_ARITY = {"Identity": (1, 1), "Neg": (1, 1), "Not": (1, 1), "Where": (3, 3), "Shape": (1, 1), "Squeeze": (2, 2),
+            "Unsqueeze": (2, 2), "Reshape": (2, 2), "Expand": (2, 2), "Slice": (3, 5), "Pad": (3, 3), "Range": (3, 3)}
+_G_BIN = {"Add": "add", "Sub": "sub", "Mul": "mul", "Div": "div", "Max": "max", "Min": "min", "Less": "less",
+          "Greater": "greater", "Equal": "equal", "And": "and", "Or": "or"}
+_G_RED = {"ReduceMax": "max", "ReduceMin": "min", "ReduceSum": "sum", "ReduceProd": "prod"}
+
+
+def _tn(arr: np.ndarray) -> Optional[str]:
+    a = np.asarray(arr)
+    if a.size > 64:
+        return None
+    flat = a.reshape(-1)
+    if a.dtype == np.bool_:
+        vals = [int(v) for v in flat]
+    elif np.issubdtype(a.dtype, np.integer):
+        vals = [int(v) for v in flat]
+    elif np.issubdtype(a.dtype, np.floating):
+        if not all(np.isfinite(v) and float(v) == int(v) for v in flat):
+            return None
+        vals = [int(v) for v in flat]
+    else:
+        return None
+    return f"⟨[{', '.join(str(int(d)) for d in a.shape)}], [{', '.join(str(v) for v in vals)}]⟩"
+
+
+def _b(v) -> str:
+    return "true" if v else "false"
+
+
+def _ilist(vs) -> str:
+    return "[" + ", ".join(str(int(v)) for v in vs) + "]"
+
+
+def translate_graph(model) -> dict:
+    """ONNX graph -> {'nodes': [(lean_op, ty, argTy, [idx])], 'outs': [idx], 'names': [value name per
+    position], 'n_inputs': k, 'unknown': [...]}; value list = graph inputs, then one value per node output
+    (initializers first, `TopK` gives two consecutive values)."""
+    from onnx import numpy_helper, helper
+    g = model.graph
+    types = _elem_types(model)
+    inits = {i.name: numpy_helper.to_array(i) for i in g.initializer}
+    idx: dict[str, int] = {}
+    names: list[str] = []
+    nodes: list = []
+    unknown: list = []
+    for vi in g.input:
+        if vi.name in inits:
+            continue
+        idx[vi.name] = len(names)
+        names.append(vi.name)
+    n_inputs = len(names)
+
+    def emit(op: str, ty: str, aty: str, args: list, outname: str):
+        idx[outname] = len(names)
+        names.append(outname)
+        nodes.append((op, ty or "f32", aty or "f32", args))
+
+    def dt_of(name: str) -> Optional[str]:
+        return DT_OF_ONNX.get(types.get(name, 0))
+
+    def const(arr, outname):
+        tn = _tn(arr)
+        ty = DT_OF_NP.get(str(np.asarray(arr).dtype))
+        if tn is None or ty is None:
+            unknown.append(f"constant {outname} {np.asarray(arr).dtype}{np.asarray(arr).shape}")
+            emit('.unknown "constant"', ty, ty, [], outname)
+        else:
+            emit(f".const {tn}", ty, ty, [], outname)
+
+    for name, arr in inits.items():
+        const(arr, name)
+    for n in g.node:
+        attrs = {a.name: helper.get_attribute_value(a) for a in n.attribute}
+        ins = list(n.input)
+        while ins and ins[-1] == "":
+            ins.pop()
+        ok = all(a in idx for a in ins)
+        args = [idx.get(a, 0) for a in ins]
+        ty = dt_of(n.output[0])
+        aty = dt_of(ins[0]) if ins else ty
+        op: Optional[str] = None
+        t = n.op_type
+        known_attrs: set = set()
+        if t == "Constant" and "value" in attrs and not ins:
+            const(numpy_helper.to_array(attrs["value"]), n.output[0])
+            continue
+        if t in _G_SIMPLE and _G_ARITY[t][0] <= len(ins) <= _G_ARITY[t][1]:
+            op = _G_SIMPLE[t]
+            if t == "Pad":
+                known_attrs = {"mode"}
+                m = attrs.get("mode", b"constant")
+                if (m.decode() if isinstance(m, bytes) else str(m)) != "constant":
+                    op = None
+            if t == "Reshape":
+                known_attrs = {"allowzero"}
+                if int(attrs.get("allowzero", 0)) != 0:
+                    op = None
+        elif t in _G_BIN and len(ins) == 2:
+            if t == "Div" and (aty or "").startswith("f"):
+                op = None
+            else:
+                op = f"(.bin .{_G_BIN[t]})"
+        elif t in ("Max", "Min") and len(ins) == 1:
+            op = ".identity"
+        elif t == "Cast" and len(ins) == 1:
+            known_attrs = {"to", "saturate"}
+            to = int(attrs.get("to", 0))
+            ty = ty or DT_OF_ONNX.get(to)
+            if to in DT_OF_ONNX:
+                op = f"(.cast {_b(to == 9)})"
+        elif t == "Concat" and len(ins) >= 1:
+            known_attrs = {"axis"}
+            op = f"(.concat {_lean_int(int(attrs.get('axis', 0)))})"
+        elif t in ("Gather", "GatherElements") and len(ins) == 2:
+            known_attrs = {"axis"}
+            op = f"(.{'gather' if t == 'Gather' else 'gatherElements'} {_lean_int(int(attrs.get('axis', 0)))})"
+        elif t in _G_RED and 1 <= len(ins) <= 2:
+            known_attrs = {"keepdims", "noop_with_empty_axes"}
+            if int(attrs.get("noop_with_empty_axes", 0)) == 0:
+                op = f"(.reduce .{_G_RED[t]} {_b(int(attrs.get('keepdims', 1)) != 0)})"
+        elif t == "CumSum" and len(ins) == 2:
+            known_attrs = {"exclusive", "reverse"}
+            op = f"(.cumsum {_b(int(attrs.get('exclusive', 0)) != 0)} {_b(int(attrs.get('reverse', 0)) != 0)})"
+        elif t == "MaxPool" and len(ins) == 1 and len(n.output) == 1:
+            known_attrs = {"kernel_shape", "strides", "pads", "ceil_mode", "dilations", "auto_pad", "storage_order"}
+            ks = list(attrs.get("kernel_shape", []))
+            ap = attrs.get("auto_pad", b"NOTSET")
+            ap = ap.decode() if isinstance(ap, bytes) else str(ap)
+            if (int(attrs.get("ceil_mode", 0)) == 0 and all(int(d) == 1 for d in attrs.get("dilations", [])) and
+                    ap == "NOTSET" and int(attrs.get("storage_order", 0)) == 0):
+                op = (f"(.maxPool {_ilist(ks)} {_ilist(attrs.get('strides', [1] * len(ks)))} "
+                      f"{_ilist(attrs.get('pads', [0] * (2 * len(ks))))})")
+        elif t == "TopK" and len(ins) == 2 and len(n.output) == 2:
+            known_attrs = {"axis", "largest", "sorted"}
+            if ok and not (set(attrs) - known_attrs):
+                tail = (f"{_lean_int(int(attrs.get('axis', -1)))} {_b(int(attrs.get('largest', 1)) != 0)} "
+                        f"{_b(int(attrs.get('sorted', 1)) != 0)}")
+                emit(f"(.topk false {tail})", ty, aty, args, n.output[0])
+                emit(f"(.topk true {tail})", dt_of(n.output[1]) or "i64", aty, args, n.output[1])
+                continue
+        if op is not None and (set(attrs) - known_attrs):
+            op = None       # an attribute the model does not know
+        if op is None or not ok or len(n.output) != 1:
+            unknown.append(f"{t}({len(ins)} inputs, attrs {sorted(attrs)})")
+            emit(f"(.unknown {_lean_str(t)})", ty, aty, args if ok else [], n.output[0])
+            for extra in n.output[1:]:
+                emit(f"(.unknown {_lean_str(t)})", "f32", "f32", [], extra)
+        else:
+            emit(op, ty, aty, args, n.output[0])
+    outs = [idx.get(o.name, 0) for o in g.output]
+    return {"nodes": nodes, "outs": outs, "names": names, "n_inputs": n_inputs, "unknown": unknown}
+
+
+def grecipe_to_lean(name: str, tr: dict) -> str:
+    rows = [f"⟨{op}, .{ty}, .{aty}, [{', '.join(map(str, args))}]⟩" for op, ty, aty, args in tr["nodes"]]
+    return (f"def g_{name} : GRecipe :=\n  {{ nodes := [\n    " + ",\n    ".join(rows) +
+            f"],\n    outs := [{', '.join(map(str, tr['outs']))}] }}\n")
+
+
+def generate_graph_source(es: Optional[list] = None) -> tuple[str, dict]:
+    """(Gen/C01Tensor.lean, info).  info[name] = {'tr', 'model', 'export_error', 'generic_ok'}."""
+    es = es or gentries()
+    info: dict[str, Any] = {}
+    defs, names = [], []
+    for e in es:
+        try:
+            model, err = gexport(e), None
+        except Exception as ex:
+            model, err = None, f"{type(ex).__name__}: {ex}"[:300]
+        if model is None:
+            tr = {"nodes": [('(.unknown "export-failed")', "f32", "f32", [])], "outs": [len(e.in_dts)],
+                  "names": [f"in{i}" for i in range(len(e.in_dts))] + ["failed"], "n_inputs": len(e.in_dts),
+                  "unknown": ["export failed"]}
+        else:
+            tr = translate_graph(model)
+        src = grecipe_to_lean(e.name, tr)
+        # length-generic recipes: the same Lean term must come out for the other extents
+        generic_bad = []
+        others = {}
+        for n in e.generic:
+            try:
+                m2 = gexport(e, [(n,) + tuple(s[1:]) if i == 0 else s for i, s in enumerate(e.shapes)])
+                others[n] = m2
+                if grecipe_to_lean(e.name, translate_graph(m2)) != src:
+                    generic_bad.append(n)
+            except Exception as ex:
+                generic_bad.append(f"{n}: {type(ex).__name__}")
+        defs.append(src)
+        names.append(e.name)
+        info[e.name] = {"tr": tr, "model": model, "export_error": err, "generic_bad": generic_bad,
+                        "other_models": others, "nodes": len(tr["nodes"]), "unknown": tr["unknown"]}
+    hdr = "/- GENERATED by harness/props/c01.py from /repo on every run — do not edit. -/\n"
+    src = (hdr + "import J2O.Model.C01Tensor\nnamespace J2O.Gen.C01\nopen J2O.C01\n\n" + "\n".join(defs) +
+           "\ndef grecipes : List (String × GRecipe) := [\n  " +
+           ",\n  ".join(f"({_lean_str(n)}, g_{n})" for n in names) + "]\n\nend J2O.Gen.C01\n")
+    return src, info
